@@ -415,6 +415,11 @@ pub fn report(c: &mut Case, case: &ConnCase, w: &World, sig: &str, msg: String) 
 
 pub fn run_one(c: &mut Case, opts: &GenOpts) {
     let case = conn::gen_conn(&mut c.rng, opts);
+    run_case(c, case);
+}
+
+/// Runs one scripted connection through `Token::run` and judges it with the full oracle.
+pub fn run_case(c: &mut Case, case: ConnCase) {
     let model = match conn_model(&case) {
         Ok(m) => m,
         Err(e) => {
